@@ -34,6 +34,8 @@ import (
 	"github.com/mandykoh/prism/srgb"
 
 	"verif/harness/gen"
+
+	"github.com/mandykoh/prism"
 )
 
 const maxG = 128
@@ -325,6 +327,32 @@ func trial(t *target, n int, sched []int32) (ok bool, infeasible bool) {
 	return
 }
 
+// trialMixed: n goroutines released together, goroutine g calling ts[g % len(ts)] - the first uses
+// of DIFFERENT entry points meet (two tables guarded by two Onces must not touch each other's state).
+func trialMixed(ts []*target, n int) bool {
+	results := make([]uint32, n)
+	var startFlag int32
+	var wg sync.WaitGroup
+	for g := 0; g < n; g++ {
+		wg.Add(1)
+		go func(g int) {
+			defer wg.Done()
+			spinUntil(&startFlag, 1)
+			results[g] = ts[g%len(ts)].call(g + 1)
+		}(g)
+	}
+	setFlag(&startFlag, 1)
+	wg.Wait()
+	ok := true
+	for g := 0; g < n; g++ {
+		if exp := ts[g%len(ts)].call(g + 1); exp != results[g] {
+			fmt.Printf("VALUE-MISMATCH target=%s goroutine=%d got=%d sequential=%d\n", ts[g%len(ts)].name, g, results[g], exp)
+			ok = false
+		}
+	}
+	return ok
+}
+
 // sharedWork exercises the other concurrency claims of C11 in the same -race
 // process: image transforms with parallelism > 1 on shared images, concurrent
 // loaders, concurrent adaptation constructors.
@@ -341,6 +369,25 @@ func sharedWork(file []byte) {
 	src := image.NewNRGBA(image.Rect(0, 0, 37, 29))
 	for i := range src.Pix {
 		src.Pix[i] = byte(i * 31)
+	}
+	// the conversion helpers on vertically subsampled Y'CbCr crops that start on odd rows / columns
+	// (their own workers must own disjoint rows whatever the origin), and on the other input types
+	for _, ratio := range []image.YCbCrSubsampleRatio{image.YCbCrSubsampleRatio420, image.YCbCrSubsampleRatio440, image.YCbCrSubsampleRatio422} {
+		big := image.NewYCbCr(image.Rect(0, 0, 170, 310), ratio)
+		for i := range big.Y {
+			big.Y[i] = byte(i * 7)
+		}
+		for i := range big.Cb {
+			big.Cb[i], big.Cr[i] = byte(i*3), byte(255-i)
+		}
+		for _, r := range []image.Rectangle{image.Rect(3, 5, 163, 306), image.Rect(2, 4, 160, 301), image.Rect(1, 1, 33, 42)} {
+			crop := big.SubImage(r)
+			for _, par := range []int{2, 3, 4} {
+				prism.ConvertImageToNRGBA(crop, par)
+				prism.ConvertImageToRGBA64(crop, par)
+				prism.ConvertImageToRGBA(crop, par)
+			}
+		}
 	}
 	var wg sync.WaitGroup
 	for k := 0; k < 4; k++ {
@@ -367,6 +414,7 @@ func sharedWork(file []byte) {
 func main() {
 	scheds := flag.String("scheds", "", "';'-separated list of target=E,E,B,P,Rl,Rw (one first use per table per process)")
 	ungated := flag.String("ungated", "", "comma-separated targets for un-gated first-use trials")
+	mixed := flag.String("mixed", "", "comma-separated targets whose first uses are released together, one target per goroutine (round robin)")
 	n := flag.Int("n", 2, "goroutines per trial")
 	procs := flag.Int("procs", 0, "GOMAXPROCS (0 = default)")
 	file := flag.String("file", "", "image file for concurrent loader calls")
@@ -423,6 +471,20 @@ func main() {
 			if ok, _ := trial(t, *n, nil); !ok {
 				exit = 3
 			}
+		}
+	}
+	if *mixed != "" {
+		var ts []*target
+		for _, name := range strings.Split(*mixed, ",") {
+			t := findTarget(name)
+			if t == nil {
+				fmt.Fprintln(os.Stderr, "unknown target", name)
+				os.Exit(2)
+			}
+			ts = append(ts, t)
+		}
+		if !trialMixed(ts, *n) {
+			exit = 3
 		}
 	}
 	var data []byte
